@@ -595,6 +595,56 @@ static void scen_case(uint64_t idx, void *vctx)
     run_scenario(&s);
 }
 
+/* ------------------------------------------------------------------ space "solid-fill": the fill entry points present a solid colour too.
+ * pixman_image_fill_rectangles(op, dst, colour) decides from the colour's alpha whether OVER may become SRC and whether memory may be
+ * filled directly; the same colour composited as a solid image with the same operator must give the same bits (both are evaluated at
+ * the precision the destination format selects), for colours that are exactly opaque and for colours that are almost opaque. */
+static const pixman_format_code_t FD_FMT[] = { PIXMAN_a8r8g8b8, PIXMAN_x8r8g8b8, PIXMAN_r5g6b5, PIXMAN_a8, PIXMAN_a1r5g5b5, PIXMAN_a2r10g10b10, PIXMAN_x2b10g10r10, PIXMAN_a8r8g8b8_sRGB, PIXMAN_rgba_float, PIXMAN_rgb_float };
+static const char *FD_FMTN[] = { "a8r8g8b8", "x8r8g8b8", "r5g6b5", "a8", "a1r5g5b5", "a2r10g10b10", "x2b10g10r10", "a8r8g8b8_sRGB", "rgba_float", "rgb_float" };
+#define FD_NFMT 10
+static const uint16_t FD_ALPHA[] = { 0xffff, 0xfffe, 0xff80, 0xff00, 0xfeff, 0xc000, 0x0001, 0x0000 };
+#define FD_NALPHA 8
+typedef struct { const int *cfgs; int ncfg; } fd_ctx;
+static void fill_case(uint64_t idx, void *vctx)
+{
+    fd_ctx *c = vctx;
+    int dims[5] = { 3, FD_NALPHA, FD_NFMT, RC_NOPS, c->ncfg }, d[5];
+    vf_decode(idx, dims, 5, d);
+    int op = rc_all_ops[d[3]]; uint16_t a = FD_ALPHA[d[1]];
+    ph_set_cfg(c->cfgs[d[4]]);
+    /* premultiplied colours: channels <= alpha */
+    pixman_color_t col = { d[0] == 0 ? a : d[0] == 1 ? (uint16_t)(a / 2) : 0, d[0] == 0 ? (uint16_t)(a / 3) : d[0] == 1 ? a : (uint16_t)(a & 0xff00), d[0] == 2 ? a : (uint16_t)(a >> 9), a };
+    int bpp = PIXMAN_FORMAT_BPP(FD_FMT[d[2]]); int W = 5, H = 2; int stride = ((W * bpp + 31) / 32) * 4;
+    size_t sz = (size_t)stride * H;
+    uint32_t *b1 = malloc(sz), *b2 = malloc(sz);
+    if (FD_FMT[d[2]] == PIXMAN_rgba_float || FD_FMT[d[2]] == PIXMAN_rgb_float) {
+        int nc = bpp / 32; float *f = (float *)b1;
+        for (int i = 0; i < W * H; i++) { float al = (float)((i * 3) % 5) / 4.0f; for (int k = 0; k < nc; k++) f[i * nc + k] = k == 3 ? al : (nc == 4 ? al : 1.0f) * (float)((i + 2 * k) % 4) / 3.0f; }
+    } else {
+        ph_fmt_t f; ph_fmt_describe(FD_FMT[d[2]], FD_FMTN[d[2]], &f);
+        for (int y = 0; y < H; y++) for (int x = 0; x < W; x++) ph_put_pixel((uint8_t *)b1 + (size_t)y * stride, bpp, x, ph_from_8888(&f, translucent(y * W + x + 1)));
+    }
+    memcpy(b2, b1, sz);
+    pixman_image_t *d1 = pixman_image_create_bits(FD_FMT[d[2]], W, H, b1, stride), *d2 = pixman_image_create_bits(FD_FMT[d[2]], W, H, b2, stride);
+    pixman_rectangle16_t r = { 1, 0, 3, 2 };
+    pixman_bool_t ok = pixman_image_fill_rectangles((pixman_op_t)op, d1, &col, 1, &r);
+    pixman_image_t *solid = pixman_image_create_solid_fill(&col);
+    pixman_image_composite32((pixman_op_t)op, solid, NULL, d2, 0, 0, 0, 0, 1, 0, 3, 2);
+    vf_count_eval(1); vf_count_libcalls(2);
+    int diff = -1; char cfgn[64];
+    for (size_t i = 0; i < sz; i++) if (((uint8_t *)b1)[i] != ((uint8_t *)b2)[i]) { diff = (int)i; break; }
+    if (!ok) vf_violation("c09-fill-refused", "pixman_image_fill_rectangles(%s, %s, colour a=%#x r=%#x g=%#x b=%#x) [%s] returned FALSE", rc_op_name(op), FD_FMTN[d[2]], col.alpha, col.red, col.green, col.blue, ph_cfg_name(c->cfgs[d[4]], cfgn, sizeof cfgn));
+    else if (diff >= 0) {
+        int px = diff % stride * 8 / bpp, py = diff / stride; char h1[80] = "", h2[80] = ""; int nb = bpp / 8 ? bpp / 8 : 1;
+        for (int k = 0; k < nb && k < 16; k++) { sprintf(h1 + 2 * k, "%02x", ((uint8_t *)b1)[(size_t)py * stride + (size_t)px * nb + k]); sprintf(h2 + 2 * k, "%02x", ((uint8_t *)b2)[(size_t)py * stride + (size_t)px * nb + k]); }
+        vf_violation("c09-fill-differs-from-solid-composite", "operator %s, destination %s 5x2, colour a=%#x r=%#x g=%#x b=%#x [%s]: pixman_image_fill_rectangles and compositing the same colour as a solid image "
+                     "differ at pixel (%d,%d): fill bytes %s, composite bytes %s (a colour is opaque only if its alpha is exactly 0xffff)", rc_op_name(op), FD_FMTN[d[2]], col.alpha, col.red, col.green, col.blue,
+                     ph_cfg_name(c->cfgs[d[4]], cfgn, sizeof cfgn), px, py, h1, h2);
+    }
+    if (!vf_in_confirm) { if (memcmp(b2, b1, sz) == 0) { uint32_t *b0 = b2; (void)b0; } vf_count_nontrivial(1); vf_outcome(vf_mix(vf_hash64(b2, sz, (uint64_t)op), (uint64_t)d[2])); }
+    pixman_image_unref(solid); pixman_image_unref(d1); pixman_image_unref(d2); free(b1); free(b2);
+}
+
 int main(int argc, char **argv)
 {
     vf_init(argc, argv, "C09", "exploration");
@@ -649,6 +699,9 @@ int main(int argc, char **argv)
     int nkind[3] = { 0, 0, 0 }; for (int i = 0; i < gc.dims[4]; i++) nkind[GD[i].kind]++;
     if (!only || !strcmp(only, "gradients")) vf_space_run("gradients", NG, gscen_case, &gc);
 
+    fd_ctx fc = { c.cfgs, ncfg };
+    if (!only || !strcmp(only, "solid-fill")) vf_space_run("solid-fill", (uint64_t)3 * FD_NALPHA * FD_NFMT * RC_NOPS * ncfg, fill_case, &fc);
+
     int cells = 0, cells_possible = 0;
     for (int i = 0; i < RC_NOPS; i++) for (int k = 0; k < 4; k++) { cells_possible++; if (cov->cell[rc_all_ops[i]][k]) cells++; }
     snprintf(vf->extra_json, sizeof vf->extra_json,
@@ -680,7 +733,8 @@ int main(int argc, char **argv)
              "Space 'gradients': 53 operators x 2 roles (source, unified-alpha mask) x %d context image sets (a8r8g8b8 / x8r8g8b8 / r5g6b5%s destinations; with and without a8 or solid mask; solid, "
              "opaque and translucent 3x3 sources) x %d gradients (%d linear, %d radial: a<0, a==0 internally tangent, a>0 disjoint / overlapping / equal circles; %d conical) x %d stop sets "
              "(all opaque | one translucent stop) x 4 repeats x %d transforms x %d request rectangles (up to 20x7, reaching outside the cone resp. outside [0,1]) x %d configurations "
-             "(default, general path only%s) = %llu cases, 2-3 presentations each%s",
+             "(default, general path only%s) = %llu cases, 2-3 presentations each. Space 'solid-fill': 53 operators x 10 destination formats (8-bit, 10-bit, sRGB, float) x 8 colour alphas "
+             "(0xffff, 0xfffe, 0xff80, 0xff00, 0xfeff, 0xc000, 1, 0) x 3 colours x the configurations: fill_rectangles vs compositing the solid image%s",
              c.dims[4], c.dims[3], c.dims[1], c.dims[0], ncfg, (unsigned long long)N,
              gc.dims[5], th ? " / a8" : "", gc.dims[4], nkind[GK_LINEAR], nkind[GK_RADIAL], nkind[GK_CONICAL], gc.dims[3], gc.dims[1], gc.dims[0], ncfg, th ? ", whole-operation paths off, SSE2+SSSE3 off, MMX+SSE2+SSSE3 off" : "", (unsigned long long)NG,
              only ? " [C09_ONLY set: only one space was run]" : "");
